@@ -32,10 +32,10 @@ def mk_ds(nt, nx, double, seed):
     return xr.Dataset(d, coords={"x": x, "time": np.arange(nt).astype("datetime64[s]")}, attrs={"isDoubleEnded": "1" if double else "0"})
 
 
-def layout_case(ctx, double, nt, nx, nta, alpha_mode=False):
+def layout_case(ctx, double, nt, nx, nta, alpha_mode=False, trans_order="asc"):
     from dtscalibration.dts_accessor_utils import ParameterIndexDoubleEnded, ParameterIndexSingleEnded
     import dtscalibration  # noqa: F401
-    case = dict(op="layout", double=double, nt=nt, nx=nx, nta=nta, alpha_mode=alpha_mode)
+    case = dict(op="layout", double=double, nt=nt, nx=nx, nta=nta, alpha_mode=alpha_mode, trans_order=trans_order)
     m = ctx.driver().call("layout", double=double, nt=nt, nx=nx, nta=nta, alpha_mode=alpha_mode)
     npar = m["npar"]
     # --- index tables of the package
@@ -62,6 +62,11 @@ def layout_case(ctx, double, nt, nx, nta, alpha_mode=False):
     # --- tagged external run: named outputs must come from the documented slots
     ds = mk_ds(nt, nx, double, seed=nt * 100 + nx * 10 + nta)
     trans = [float(ds.x.values[1 + k] + (0.25 if k % 2 else 0.0)) for k in range(nta)] if nx > nta + 1 else [1.1 + 0.3 * k for k in range(nta)]
+    # splices may be listed in any order; splice k of the result is the k-th LISTED one
+    if trans_order == "desc":
+        trans = trans[::-1]
+    elif trans_order == "rot" and len(trans) > 2:
+        trans = trans[1:] + trans[:1]
     p_val = np.arange(npar) * 1e-3 + 0.5
     p_val[0] = 480.0
     A = np.random.default_rng(7).random((npar, npar))
@@ -190,6 +195,10 @@ def run(ctx):
                 layout_case(ctx, False, nt, nx, nta)
                 if (nt + nx + nta) % 3 == 0:
                     layout_case(ctx, False, nt, nx, nta, alpha_mode=True)
+                if nta >= 2 and nx > nta + 1:
+                    order = "desc" if (nt + nx) % 2 == 0 or nta == 2 else "rot"
+                    layout_case(ctx, True, nt, nx, nta, trans_order=order)
+                    layout_case(ctx, False, nt, nx, nta, trans_order=order)
     for _ in range(10 if ctx.quick else 200):
         double = ctx.rng.random() < 0.5
         c = fibre.make_case(ctx.rng, double=double, nx=ctx.rng.randint(10, 30), nt=ctx.rng.randint(1, 4), n_baths=2,
